@@ -154,6 +154,17 @@ class ComponentBump:
         """
         if self.to_rbuild is None:
             return {}
+        # rbuilds included into the previous versions of the component: these
+        # are self.from_rbuilds and all their ancestors. (In case component
+        # has parallel sub-branches an ancestor of 'from' rbuild may be
+        # reachable from 'to' rbuild via another sub-branch)
+        already_included = dict(self.from_rbuilds)
+        to_process = list(self.from_rbuilds.values())
+        while to_process:
+            for parent in to_process.pop().parent_rbuilds.values():
+                if parent.iid not in already_included:
+                    already_included[parent.iid] = parent
+                    to_process.append(parent)
         # DFS rbuilds in the component
         dfs_stack = [[self.to_rbuild]]
         dfs_sp = [0]
@@ -177,7 +188,7 @@ class ComponentBump:
 
             cur_rbuild = dfs_stack[-1][cur_sp]
 
-            if cur_rbuild.iid in self.from_rbuilds:
+            if cur_rbuild.iid in already_included:
                 # do not go deeper
                 dfs_sp[-1] = cur_sp - 1
                 continue
